@@ -131,6 +131,14 @@ func All(root proto.Message) []Mutant {
 					nv = reflect.AppendSlice(nv, v.Slice(i+1, v.Len()))
 					v.Set(nv)
 				})
+				// element i overwritten by a copy of a neighbour (count kept, one entry repeated)
+				for _, j := range []int{i - 1, i + 1} {
+					j := j
+					if j < 0 || j >= n {
+						continue
+					}
+					emit(s, fmt.Sprintf("overwrite[%d<-%d]", i, j), func(v reflect.Value) { v.Index(i).Set(cloneElem(v.Index(j))) })
+				}
 				if i+1 < n {
 					emit(s, fmt.Sprintf("swap[%d,%d]", i, i+1), func(v reflect.Value) {
 						a, b := cloneElem(v.Index(i)), cloneElem(v.Index(i+1))
